@@ -121,9 +121,12 @@ pub fn te_desc<P: te::TECurveConfig>(fd: &str) -> String {
 pub trait Rep: CanonicalSerialize + CanonicalDeserialize + Clone {
     const KIND: &'static str;
     fn show(&self) -> String;
+    /// validating this value costs the driver no scalar multiplication (SW identity)
+    fn trivial(&self) -> bool { false }
 }
 impl<P: sw::SWCurveConfig> Rep for sw::Affine<P> {
     const KIND: &'static str = "aff";
+    fn trivial(&self) -> bool { self.infinity }
     fn show(&self) -> String {
         if self.infinity {
             if self.x.is_zero() && self.y.is_zero() { "inf".into() } else { format!("inf!{}/{}", fe(&self.x), fe(&self.y)) }
@@ -132,6 +135,7 @@ impl<P: sw::SWCurveConfig> Rep for sw::Affine<P> {
 }
 impl<P: sw::SWCurveConfig> Rep for sw::Projective<P> {
     const KIND: &'static str = "proj";
+    fn trivial(&self) -> bool { self.z.is_zero() }
     fn show(&self) -> String { format!("{}/{}/{}", fe(&self.x), fe(&self.y), fe(&self.z)) }
 }
 impl<P: te::TECurveConfig> Rep for te::Affine<P> {
@@ -216,8 +220,22 @@ pub fn op_mfdefl<F: Field, Fl: NF>(out: &mut Out, fd: &str, bytes: &[u8]) {
     out.line(&input, &res);
 }
 
+// ------------------------------------------------------------------ budget of expensive lines
+/// Lines whose driver-side cost is a scalar multiplication by `r` over the spec-level affine group
+/// (checked modes on shipped curves, `Valid::check`) are counted against this budget; once it is
+/// used up `spend` refuses.  Toy curves run with an unlimited budget.
+pub static SMUL_BUDGET: std::sync::atomic::AtomicI64 = std::sync::atomic::AtomicI64::new(i64::MAX);
+pub fn set_budget(n: i64) { SMUL_BUDGET.store(n, std::sync::atomic::Ordering::Relaxed); }
+pub fn spend(k: i64) -> bool {
+    let b = SMUL_BUDGET.load(std::sync::atomic::Ordering::Relaxed);
+    if b < k { return false; }
+    if b != i64::MAX { SMUL_BUDGET.store(b - k, std::sync::atomic::Ordering::Relaxed); }
+    true
+}
+
 // ------------------------------------------------------------------ op emitters: points
 pub fn op_prt<T: Rep>(out: &mut Out, cd: &str, x: &T, c: Compress, v: Validate) {
+    if v == Validate::Yes && !spend(1) { return; }
     let input = format!("C09 prt {} {} {} {} {}", cd, T::KIND, cs(c), vs(v), x.show());
     let res = guarded(|| {
         let mut bytes = Vec::new();
@@ -243,12 +261,14 @@ pub fn op_mpde<T: Rep>(out: &mut Out, cd: &str, bytes: &[u8], c: Compress, v: Va
 
 /// `Valid::check` of one point
 pub fn op_pchk<T: Rep>(out: &mut Out, cd: &str, x: &T) {
+    if !spend(1) { return; }
     let input = format!("C10 pchk {} {} {}", cd, T::KIND, x.show());
     let res = guarded(|| match x.check() { Ok(()) => "ok".into(), Err(e) => format!("err:{}", err_str(&e)) });
     out.line(&input, &res);
 }
 /// `Valid::batch_check` of a list of points
 pub fn op_pbchk<T: Rep>(out: &mut Out, cd: &str, xs: &[T]) {
+    if !spend(xs.len() as i64) { return; }
     let ps = if xs.is_empty() { "_".to_string() } else { xs.iter().map(|x| x.show()).collect::<Vec<_>>().join(";") };
     let input = format!("C10 pbchk {} {} {}", cd, T::KIND, ps);
     let res = guarded(|| match T::batch_check(xs.iter()) { Ok(()) => "ok".into(), Err(e) => format!("err:{}", err_str(&e)) });
@@ -570,7 +590,10 @@ pub fn field_strings<F: Field, Fl: NF>(rng: &mut Rng, vals: &[F], exh: usize, sw
         }
     }
     for _ in 0..10 { v.push(rand_bytes(rng, size)); }
-    if all_trunc { v.extend(truncations(&base)); } else { v.extend(truncations(&base).into_iter().take(if size > 40 { 12 } else { size + 2 })); }
+    if all_trunc {
+        // every truncation; for long encodings (towers) every 7th length plus the lengths around each coordinate boundary
+        v.extend(truncations(&base).into_iter().filter(|w| size <= 100 || w.len() % 7 == 0 || w.len() % s0 <= 1 || w.len() % s0 == s0 - 1 || w.len() + 2 >= size));
+    } else { v.extend(truncations(&base).into_iter().take(if size > 40 { 12 } else { size + 2 })); }
     dedup(v)
 }
 
@@ -669,7 +692,9 @@ pub fn sw_sample<P: sw::SWCurveConfig>(rng: &mut Rng, n: usize) -> (Vec<sw::Affi
     }
     let mut other: Vec<sw::Affine<P>> = Vec::new();
     for _ in 0..n {
-        let q = sw_rand_curve_point::<P>(rng);
+        // cofactor > 1: a curve point OUTSIDE the prime-order subgroup (r·Q ≠ O)
+        let mut q = sw_rand_curve_point::<P>(rng);
+        while !P::cofactor_is_one() && q.mul_bigint(<P::ScalarField as PrimeField>::MODULUS).is_zero() { q = sw_rand_curve_point::<P>(rng); }
         other.push(q);
         if !P::cofactor_is_one() {
             // small-order component T = r·Q, and P + T for a subgroup point P
@@ -689,7 +714,8 @@ pub fn te_sample<P: te::TECurveConfig>(rng: &mut Rng, n: usize) -> (Vec<te::Affi
     }
     let mut other: Vec<te::Affine<P>> = Vec::new();
     for _ in 0..n {
-        let q = te_rand_curve_point::<P>(rng);
+        let mut q = te_rand_curve_point::<P>(rng);
+        while !P::cofactor_is_one() && q.mul_bigint(<P::ScalarField as PrimeField>::MODULUS).is_zero() { q = te_rand_curve_point::<P>(rng); }
         other.push(q);
         let t = q.mul_bigint(<P::ScalarField as PrimeField>::MODULUS);
         other.push(t.into_affine());
